@@ -231,6 +231,19 @@ func (fr *faultRun) commitFaulty() bool {
 		// the commit was durable and switched the in-memory state, but a later
 		// truncate/mmap failed: Commit reports an error for a committed state.
 		w.violate("post-durable-failure", "post-durable-failure", "Commit returned an error (%s) after the new state was made durable and switched in memory; the transaction is visible although Commit failed", allKinds(err))
+		// whatever state the file is in now, Close must still release the path
+		w.Disk.ClearFaults()
+		f := w.F
+		var cerr error
+		if !w.guard("File.Close(after a failed remap)", func() { cerr = f.Close() }) {
+			w.F = nil
+			if w.Disk.Locked() || !w.Disk.Closed() {
+				w.failed = false
+				w.violate("fclose-lock", "fclose-lock:after-failed-remap", "File.Close after a commit whose final mmap/truncate failed (returned %v) left the path locked=%v, file closed=%v", cerr, w.Disk.Locked(), w.Disk.Closed())
+			} else {
+				w.Res.Add("closes_after_failed_remap", 1)
+			}
+		}
 		return false
 	}
 	// remember the attempt if its header write went out
